@@ -152,6 +152,7 @@ type videoParams struct {
 	vp9Depth   uint8
 	// AV1
 	seqHdr []byte
+	av1    *av1SeqHdrSpec // set for generated sequence headers
 	desc   string
 	// H264: picture order count type 0 (B-frames); slices then carry a parsable header
 	reorder bool
@@ -228,7 +229,20 @@ func videoParamVariantR(codec string, k int, reorder bool) *videoParams {
 			p.vp9Depth = 10
 		}
 	case "av1":
-		p.seqHdr = av1SeqHdrs[k%len(av1SeqHdrs)]
+		if k%4 < 2 {
+			p.seqHdr = av1SeqHdrs[k%len(av1SeqHdrs)]
+			break
+		}
+		// generated sequence headers: levels, tiers, depths and colour descriptions the two captured ones lack
+		colours := [][3]int{{1, 1, 1}, {9, 16, 9}, {9, 18, 9}, {1, 13, 6}, {5, 6, 5}}
+		c := colours[(k/4)%len(colours)]
+		a := &av1SeqHdrSpec{level: []int{8, 5, 12, 9}[(k/2)%4], tier: (k / 8) % 2, w: []int{1280, 1920, 640, 3840}[(k/2)%4], h: []int{720, 1080, 360, 2160}[(k/2)%4],
+			depth: []int{8, 10}[(k/4)%2], csp: (k / 4) % 3, desc: (k/4)%3 != 0, cp: c[0], tc: c[1], mc: c[2], fullRange: (k/16)%2 == 1}
+		if a.level <= 7 {
+			a.tier = 0
+		}
+		p.seqHdr = av1SeqHdr(a)
+		p.av1 = a
 	}
 	return p
 }
@@ -371,6 +385,92 @@ func leb128(v int) []byte {
 			return out
 		}
 	}
+}
+
+// av1SeqHdrSpec: what a generated AV1 sequence header declares (main profile, 4:2:0).
+type av1SeqHdrSpec struct {
+	level, tier int // seq_level_idx, seq_tier
+	w, h        int
+	depth       int // 8 or 10
+	csp         int // chroma_sample_position 0..2
+	desc        bool
+	cp, tc, mc  int // colour primaries, transfer characteristics, matrix coefficients
+	fullRange   bool
+}
+
+// codecString is the RFC 6381 / AV1-ISOBMFF form: av01.P.LLT.DD.M.CCC.cp.tc.mc.F
+func (a *av1SeqHdrSpec) codecString() string {
+	t := "M"
+	if a.tier == 1 {
+		t = "H"
+	}
+	cp, tc, mc, f := 1, 1, 1, 0
+	if a.desc {
+		cp, tc, mc = a.cp, a.tc, a.mc
+		if a.fullRange {
+			f = 1
+		}
+	}
+	return fmt.Sprintf("av01.0.%02d%s.%02d.0.11%d.%02d.%02d.%02d.%d", a.level, t, a.depth, a.csp, cp, tc, mc, f)
+}
+
+// av1SeqHdr writes a sequence header OBU (AV1 bitstream specification 5.5) for the spec.
+func av1SeqHdr(a *av1SeqHdrSpec) []byte {
+	w := &bitW{}
+	w.bits(0, 3)  // seq_profile
+	w.bits(0, 1)  // still_picture
+	w.bits(0, 1)  // reduced_still_picture_header
+	w.bits(0, 1)  // timing_info_present_flag
+	w.bits(0, 1)  // initial_display_delay_present_flag
+	w.bits(0, 5)  // operating_points_cnt_minus_1
+	w.bits(0, 12) // operating_point_idc[0]
+	w.bits(uint64(a.level), 5)
+	if a.level > 7 {
+		w.bits(uint64(a.tier), 1)
+	}
+	w.bits(15, 4) // frame_width_bits_minus_1
+	w.bits(15, 4) // frame_height_bits_minus_1
+	w.bits(uint64(a.w-1), 16)
+	w.bits(uint64(a.h-1), 16)
+	w.bits(0, 1) // frame_id_numbers_present_flag
+	w.bits(0, 1) // use_128x128_superblock
+	w.bits(1, 1) // enable_filter_intra
+	w.bits(1, 1) // enable_intra_edge_filter
+	w.bits(0, 1) // enable_interintra_compound
+	w.bits(0, 1) // enable_masked_compound
+	w.bits(0, 1) // enable_warped_motion
+	w.bits(0, 1) // enable_dual_filter
+	w.bits(0, 1) // enable_order_hint
+	w.bits(1, 1) // seq_choose_screen_content_tools
+	w.bits(1, 1) // seq_choose_integer_mv
+	w.bits(0, 1) // enable_superres
+	w.bits(1, 1) // enable_cdef
+	w.bits(0, 1) // enable_restoration
+	// color_config
+	if a.depth == 10 {
+		w.bits(1, 1) // high_bitdepth
+	} else {
+		w.bits(0, 1)
+	}
+	w.bits(0, 1) // mono_chrome
+	if a.desc {
+		w.bits(1, 1)
+		w.bits(uint64(a.cp), 8)
+		w.bits(uint64(a.tc), 8)
+		w.bits(uint64(a.mc), 8)
+	} else {
+		w.bits(0, 1)
+	}
+	if a.fullRange && a.desc {
+		w.bits(1, 1) // color_range
+	} else {
+		w.bits(0, 1)
+	}
+	w.bits(uint64(a.csp), 2) // chroma_sample_position (profile 0: 4:2:0)
+	w.bits(0, 1)             // separate_uv_delta_q
+	w.bits(0, 1)             // film_grain_params_present
+	w.trailing()
+	return av1OBU(1, w.b)
 }
 
 func av1OBU(typ int, payload []byte) []byte {
